@@ -51,6 +51,7 @@ type vfConn struct {
 	rdlTimer  *time.Timer
 	onClose   func()
 	closeOnce sync.Once
+	writeLag  time.Duration // Write returns this long after the peer can read the data (a slow syscall return)
 }
 
 func (c *vfConn) Read(p []byte) (int, error) {
@@ -110,6 +111,11 @@ func (c *vfConn) Write(p []byte) (int, error) {
 	h.buf = append(h.buf, p...)
 	h.total += int64(len(p))
 	h.cond.Broadcast()
+	if c.writeLag > 0 {
+		h.mu.Unlock()
+		time.Sleep(c.writeLag)
+		h.mu.Lock()
+	}
 	return len(p), nil
 }
 
